@@ -303,6 +303,18 @@ class Interp:
                 return
             if isinstance(v, (set, frozenset)):
                 v = list(v)
+            stars = [i for i, e in enumerate(target.elts) if isinstance(e, ast.Starred)]
+            if len(stars) == 1 and isinstance(v, (tuple, list)):
+                i = stars[0]
+                after = len(target.elts) - i - 1
+                if len(v) < len(target.elts) - 1:
+                    raise PyRaise("ValueError", None)
+                for e, x in zip(target.elts[:i], v[:i]):
+                    self.assign(e, x)
+                self.assign(target.elts[i].value, list(v[i:len(v) - after]))  # type: ignore[attr-defined]
+                for e, x in zip(target.elts[i + 1:], v[len(v) - after:] if after else []):
+                    self.assign(e, x)
+                return
             if not isinstance(v, (tuple, list)) or len(v) != len(target.elts):
                 raise Unsupported(target, "(unpacking shape)")
             for e, x in zip(target.elts, v):
@@ -360,6 +372,12 @@ class Interp:
                 if isinstance(e.value, ast.Name) and e.value.id[:1].isupper():
                     return Sym(f"{e.value.id}.{e.attr}")  # enum member / class constant
                 return Opaque(f"{base.label}.{e.attr}")
+            if self.globals.get("__native_getattr__") and not isinstance(base, (Sym, str, bytes, int, float, list, tuple, dict, set, frozenset)):
+                # models whose inputs are real runtime objects (typing forms, classes) read their attributes as the code does
+                try:
+                    return getattr(base, e.attr)
+                except AttributeError:
+                    raise PyRaise("AttributeError", e.attr)
             raise Unsupported(e, "(attribute of a concrete value)")
         if isinstance(e, ast.JoinedStr):
             if self.globals.get("__concrete_fstrings__"):
@@ -519,6 +537,12 @@ class Interp:
         if isinstance(op, (ast.In, ast.NotIn)):
             if isinstance(b, Opaque):
                 raise Unsupported(node, "(membership in an opaque value)")
+            if isinstance(b, Obj):
+                md = self.method_defs.get((b._kind, "__contains__"))
+                if md is None:
+                    raise Unsupported(node, f"(membership in a model object {b._kind} without __contains__)")
+                res = self.truth(self.call_def(md, [b, a], node))
+                return res if isinstance(op, ast.In) else not res
             try:
                 res = a in b
             except Exception as ex:  # e.g. an unhashable model value looked up in a dict
@@ -647,7 +671,9 @@ class Interp:
                     raise PyRaise(type(ex).__name__, None)
             if nm == "type" and len(e.args) == 1 and nm not in self.env:
                 v = self.ev(e.args[0])
-                if isinstance(v, (Obj, Opaque, Sym)):
+                if isinstance(v, Obj):
+                    return Sym(v._kind)  # the class of a model object is the symbol its class name evaluates to
+                if isinstance(v, (Opaque, Sym)):
                     raise Unsupported(e, "(type() of a model object)")
                 return type(v)
             if nm == "hasattr" and len(e.args) == 2 and nm not in self.env:
@@ -678,7 +704,7 @@ class Interp:
             if nm == "isinstance" and len(e.args) == 2:
                 v0 = self.ev(e.args[0])
                 classes0 = e.args[1].elts if isinstance(e.args[1], ast.Tuple) else [e.args[1]]
-                native = {"bool": bool, "int": int, "str": str, "list": list, "tuple": tuple, "dict": dict, "float": float, "set": set, "type": type, "super": super}
+                native = {"bool": bool, "int": int, "str": str, "list": list, "tuple": tuple, "dict": dict, "float": float, "set": set, "type": type, "super": super, "bytes": bytes, "bytearray": bytearray, "frozenset": frozenset, "complex": complex}
                 if not isinstance(v0, (Obj, Opaque, Sym)) and all(norm(c) in native for c in classes0):
                     return any(isinstance(v0, native[norm(c)]) for c in classes0)
                 if isinstance(v0, Sym) and all(norm(c) in native for c in classes0):
@@ -755,6 +781,19 @@ class Interp:
                     raise PyRaise("IndexError", None)
             if isinstance(recv, (set, frozenset)) and meth in ("union", "intersection", "difference", "issubset", "issuperset", "isdisjoint") and all(isinstance(a, (set, frozenset, dict, list, tuple)) for a in args):
                 return getattr(recv, meth)(*[set(a) for a in args])
+            if recv is ast and meth == "parse" and args and isinstance(args[0], str):
+                try:
+                    return ast.parse(*args, **{k.arg: self.ev(k.value) for k in e.keywords if k.arg})
+                except SyntaxError:
+                    raise PyRaise("SyntaxError", None)
+            if isinstance(recv, set) and meth == "pop" and not args:
+                # an arbitrary element: the choice is made reproducible (first in repr order); code whose
+                # result depended on it would be order-dependent, which is C10's subject, not this engine's
+                if not recv:
+                    raise PyRaise("KeyError", None)
+                x = sorted(recv, key=lambda v: (type(v).__name__, repr(v) if not isinstance(v, ast.AST) else f"{getattr(v, 'lineno', 0):06d}:{getattr(v, 'col_offset', 0):06d}:{type(v).__name__}"))[0]
+                recv.discard(x)
+                return x
             if isinstance(recv, set) and meth in ("add", "discard", "update"):
                 getattr(recv, meth)(*args)
                 return None
